@@ -15,4 +15,9 @@ CHECKS = {
     design_ref='DESIGN.md section 2, C20',
     note='Trusts the 40-line DFS cycle detector in the harness. Graphs whose only cycles pass through loop_control edges accept either outcome (not named by the property).',
     technique='property-based testing: exhaustive small-scope enumeration + Hypothesis random graphs against a validity predicate and independent cycle detection'),
+ 'C18': dict(
+    text='Every quoting form the repository offers (EdgeQL: quote_literal/escape_string, dollar_quote_literal, quote_ident x all flag combinations, param_to_str, codegen string and bytes constants; SQL: quote_literal, quote_e_literal, quote_ident/quote_col, qname, quote_type, quote_bytea_literal, pg codegen String/Bytea constants, dbops encode_value) is applied to generated strings: exhaustively to all strings of length <=3 (thorough: <=4) over a 26-symbol adversarial alphabet and all byte strings of length <=3 over 17 byte values, to every keyword of both keyword tables in three casings plus delimiter fragments, and to Hypothesis text/binary. Oracle: the repository real Rust lexer (via FFI) must read the EdgeQL form back as exactly one token of the expected kind with the original value, alone and embedded in a statement; a reference PostgreSQL lexer (manual 4.1) does the same for the SQL forms. Exhaustive-small + random is the right level: escaping bugs need only short inputs.',
+    design_ref='DESIGN.md section 2, C18',
+    note='Trusted base: oracles/pglex.py (reference PostgreSQL lexer, ~250 lines, self-tested on the manual examples; standard_conforming_strings=on, UTF-8) and the FFI bridge to the repository lexer. PostgreSQL keyword classes are the manual ones restricted to words in the repository table.',
+    technique='property-based testing: exhaustive short strings over an adversarial alphabet + Hypothesis text, round-trip through the real EdgeQL lexer and a reference PostgreSQL lexer'),
 }
